@@ -73,6 +73,18 @@ fn juggle(a: array<string>, depth: int) {
         a.push(x)
     }
 }
+fn deep(n: int, a: array<string>, carry: string) -> int {
+    // many frames, each holding locals that refer to heap objects, while the innermost allocates
+    let mine = "f" .. n
+    let seen = a.len() + n
+    if n == 0 {
+        work(3)
+        seen
+    } else {
+        let below = deep(n - 1, a, mine)
+        if mine == carry { below } else { below + seen - seen }
+    }
+}
 fn consume(x: string, ys: array<string>) -> string {
     x .. ys.len()
 }
@@ -100,7 +112,9 @@ fn stmt(rng: &mut Rng, c: &mut u64, small: bool) -> String {
     *c += 1;
     let n = if small { rng.range(1, 3) } else { rng.range(2, 6) };
     let cc = *c;
-    match rng.below(52) {
+    match rng.below(54) {
+        // an operand stack several hundred slots deep
+        52 | 53 => format!("acc = acc .. deep({}, {a}, \"d\")", if small { rng.range(20, 45) } else { rng.range(30, 140) }),
         // a value that lives only in the locals of nested call frames while callees allocate
         48 | 49 => format!("juggle({a}, {})", k + 1),
         // ... or only on the operand stack while a later argument is being evaluated
